@@ -5,19 +5,101 @@ RULE = RULES["C12"]
 ASSUMPTIONS = ASSUMPTIONS_FOR["C12"]
 
 
+RULE = RULE + (
+    " Additionally (task many-ranges): one evaluation = a key-holding peer sends, after a real handshake, a generated pattern of ack-eliciting 1-RTT packets "
+    "with generated packet-number gaps (up to several hundred separate ranges, far more than fit into one ACK frame), never acknowledging the endpoint's own "
+    "packets so that nothing is pruned, in generated bursts between which the endpoint's ACK timer is allowed to fire; every ACK frame the endpoint emits "
+    "(decrypted wire) must list only packet numbers that were sent to it, and after every burst the highest number delivered so far must be covered by an "
+    "ACK frame sent within max_ack_delay (25 ms) of its arrival."
+)
+
+
+def many_ranges_case(ctx, case):
+    from vlib import endpoints as E
+    from vlib.takeover import Takeover
+
+    with E.pinned(("c12-ranges", case["role"], case["mds"])):
+        tk = Takeover(case["role"], client_kw={"max_datagram_size": case["mds"]}, server_kw={"max_datagram_size": case["mds"]})
+        sent = set()
+        pn = tk.pn + 3
+        max_ranges = 0
+        for burst in case["bursts"]:
+            top = None
+            for gap, run in burst:
+                pn += gap
+                for _ in range(run):
+                    tk.send_frames([{"name": "ping"}], pn=pn)
+                    sent.add(pn)
+                    top = pn
+                    pn += 1
+                pn += 1  # at least one number is skipped between runs
+            arrival = tk.now
+            views = list(tk.collect())
+            # let the ACK timer fire (the caller loop of the Sans-IO API), but not beyond the advertised delay
+            for _ in range(3):
+                t = tk.sut.get_timer()
+                if t is None or t > arrival + 0.025 + 1e-6:
+                    break
+                tk.now = max(tk.now, t) + 0.0005
+                tk.sut.handle_timer(now=tk.now)
+                tk.drain_events()
+                views += list(tk.collect())
+            acked_now = set()
+            for v in views:
+                for f in v.frames or []:
+                    if f["name"] == "ack" and v.space == "app":
+                        max_ranges = max(max_ranges, len(f["acked"]))
+                        for lo, hi in f["acked"]:
+                            if hi - lo > 100000:
+                                ctx.violation("ack-lists-packets-never-sent", "%s acknowledges the range %d..%d" % (case["role"], lo, hi), case)
+                                return
+                            for p in range(lo, hi + 1):
+                                if p >= tk.pn and p not in sent:
+                                    ctx.violation("ack-lists-packets-never-sent", "%s acknowledges packet %d which was never sent to it (ranges %r)" % (case["role"], p, f["acked"][:5]), case)
+                                    return
+                                acked_now.add(p)
+            if top is not None and top not in acked_now and tk.terminated is None and tk.sut._close_event is None:
+                ctx.violation("highest-packet-not-acknowledged-within-max-ack-delay", "%s: packet %d (highest so far, ack-eliciting) arrived at t=%.4f and is in no ACK frame sent up to t=%.4f; %d ranges are outstanding" % (case["role"], top, arrival, tk.now, len(tk.sut._spaces[max(tk.sut._spaces, key=lambda e: e.value)].ack_queue)), case)
+                return
+        ctx.case(("ranges", repr(case)), nontrivial=max_ranges > 1, classes=["ranges:" + case["role"], "ranges:max>=%d" % (64 if max_ranges >= 64 else 8 if max_ranges >= 8 else 0)])
+
+
+def many_ranges_task(ctx, examples, shard):
+    from hypothesis import strategies as st
+    from vlib.harness import run_hypothesis
+
+    run = st.tuples(st.sampled_from([0, 0, 1, 3, 50]), st.sampled_from([1, 1, 1, 2, 5]))
+    burst = st.one_of(st.lists(run, min_size=1, max_size=12), st.lists(run, min_size=60, max_size=160), st.lists(st.just((0, 1)), min_size=70, max_size=300))
+    strat = st.fixed_dictionaries({"kind": st.just("ranges"), "role": st.sampled_from(["server", "client"]), "mds": st.sampled_from([1200, 1280, 1452]), "bursts": st.lists(burst, min_size=1, max_size=4)})
+
+    def body(ctx, case):
+        many_ranges_case(ctx, case)
+        if ctx.want_sample():
+            ctx.sample({"role": case["role"], "mds": case["mds"], "bursts": [len(b) for b in case["bursts"]]})
+
+    run_hypothesis(ctx, body, strat, examples, shard=shard)
+
+
 def plan(tier, seed):
     from vlib import simchecks
 
-    return simchecks.plan_for("C12", tier, seed)
+    t = simchecks.plan_for("C12", tier, seed)
+    for s in range(2):
+        t.append(("many-ranges-%d" % s, {"fn": "ranges", "examples": 40 if tier == "quick" else 3000, "shard": s}))
+    return t
 
 
 def run_task(ctx, name, fn, **kw):
     from vlib import simchecks
 
+    if fn == "ranges":
+        return many_ranges_task(ctx, kw["examples"], kw["shard"])
     simchecks.run_task(ctx, "C12", name, fn, **kw)
 
 
 def replay(ctx, case):
     from vlib import simchecks
 
+    if case.get("kind") == "ranges":
+        return many_ranges_case(ctx, dict(case, bursts=[[tuple(r) for r in b] for b in case["bursts"]]))
     simchecks.replay(ctx, case, "C12")
